@@ -27,6 +27,7 @@ RULE = (
     "domain; distinct = distinct SHA-256 of the run's event log"    " 8% of the runs are programs beyond exhaustive enumeration (12-30 variables, domains up to 31 values and around 2^31 / 2^63, "
     "trees up to 60 nodes, wide nodes over up to 24 distinct variables), satisfiable by construction (hidden witness) and checked by "
     "pinning every variable to the witness, to boundary assignments (all low / all high / one-hot / one-cold) and to random assignments"
+    '; fault injection in one session out of ten: the stub backend dies after a torn write of 0-4 sol fields, z3 check() answers unknown or raises, API calls are rejected (non-boolean constraint, bad array bounds, non-variable answer key) - the failing query may only raise, every later query is checked'
 )
 STATE_MEASURE = "distinct (declarations, model set) pairs at find_answer time"
 COMPONENTS = {
